@@ -18,11 +18,20 @@ except ImportError:
             return str(self.s) == str(o)
 
 
+def plain(txt):
+    """concrete str of a text; a symbolic text is concretised by exhaustive forking over its (small) domain"""
+    if txt is None or isinstance(txt, str):
+        return txt
+    from .symx import core
+    chars = [c if isinstance(c, int) else core.cur().concretize(c, 700) for c in txt.c]
+    return ''.join(map(chr, chars))
+
+
 def txt_same(a, b):
     if a is None or b is None:
         return a is None and b is None
     if isinstance(a, str) and isinstance(b, str):
-        return a == b
+        return str.__eq__(str(a), str(b))          # Uri/Bin are str subclasses with kind-aware ==; here only the text counts
     return SymStr(a).eq_term(b)
 
 
@@ -36,8 +45,8 @@ def to_neutral(hz, v):
         return ('remove',)
     if v is D.NA:
         return ('na',)
-    if isinstance(v, bool):
-        return ('bool', v)
+    if isinstance(v, bool) or type(v).__name__ == 'SymBool':
+        return ('bool', bool(v))
     if isinstance(v, D.Uri):
         return ('uri', v)
     if isinstance(v, D.Bin):
@@ -72,6 +81,7 @@ def to_neutral(hz, v):
 
 
 def numtext_value(txt):
+    txt = plain(txt)
     if txt == 'INF':
         return float('inf')
     if txt == '-INF':
@@ -82,6 +92,7 @@ def numtext_value(txt):
 
 
 def frac_to_us(frac):
+    frac = plain(frac)
     return int((frac + '000000')[:6]) if frac else 0
 
 
@@ -104,20 +115,32 @@ def same(a, b, opts=None):
         if tb != 'time':
             return False
         t = a[1]
-        return b[1] == '%02d:%02d:%02d' % (t.hour, t.minute, t.second) and frac_to_us(b[2]) == t.microsecond
+        return plain(b[1]) == '%02d:%02d:%02d' % (t.hour, t.minute, t.second) and frac_to_us(b[2]) == t.microsecond
     if ta == 'dtval':
         if tb != 'datetime':
             return False
         d = a[1]
         _, date, hms, frac, off, tz = b
+        date, hms, off, tz = plain(date), plain(hms), plain(off), plain(tz)
         naive = d.replace(tzinfo=None)
-        if date != naive.date().isoformat() or hms != naive.strftime('%H:%M:%S') or frac_to_us(frac) != naive.microsecond:
-            return False
         if off is None:
             return False
         sign = -1 if off[0] == '-' else 1
-        if d.utcoffset() != sign * datetime.timedelta(hours=int(off[1:3]), minutes=int(off[4:6])):
-            return False
+        delta = sign * datetime.timedelta(hours=int(off[1:3]), minutes=int(off[4:6]))
+        if opts.get('dt_instant'):
+            # same instant (the reader may re-express it in the named zone)
+            try:
+                written = datetime.datetime.strptime(date + ' ' + hms, '%Y-%m-%d %H:%M:%S').replace(microsecond=frac_to_us(frac)) - delta
+                got = naive - d.utcoffset()
+            except (OverflowError, ValueError):
+                return True
+            if written != got:
+                return False
+        else:
+            if date != naive.date().isoformat() or hms != naive.strftime('%H:%M:%S') or frac_to_us(frac) != naive.microsecond:
+                return False
+            if d.utcoffset() != delta:
+                return False
         if opts.get('zone_names', True):
             zone = getattr(d.tzinfo, 'zone', None)
             if zone is not None:
@@ -129,7 +152,7 @@ def same(a, b, opts=None):
     if ta == 'coordval':
         if tb != 'coord':
             return False
-        return abs(float(b[1]) - a[1]) <= 5.1e-7 and abs(float(b[2]) - a[2]) <= 5.1e-7
+        return abs(float(plain(b[1])) - a[1]) <= 5.1e-7 and abs(float(plain(b[2])) - a[2]) <= 5.1e-7
     if ta != tb:
         return False
     if ta in ('null', 'marker', 'remove', 'na'):
@@ -141,6 +164,15 @@ def same(a, b, opts=None):
     if ta == 'ref':
         return b_and(txt_same(a[1], b[1]), txt_same(a[2], b[2]))
     if ta == 'xstr':
+        enc = plain(b[1])
+        if enc == 'hex':
+            return b_and(txt_same(a[1], b[1]), plain(a[2]).lower() == plain(b[2]).lower())
+        if enc == 'b64':
+            import base64
+            try:
+                return b_and(txt_same(a[1], b[1]), base64.b64decode(plain(a[2])) == base64.b64decode(plain(b[2])))
+            except Exception:
+                return True
         return b_and(txt_same(a[1], b[1]), txt_same(a[2], b[2]))
     if ta == 'list':
         if len(a[1]) != len(b[1]):
@@ -156,7 +188,7 @@ def same(a, b, opts=None):
             return False
         return b_and(*[same(v1, d2[k1], opts) for k1, v1 in a[1]])
     if ta == 'grid':
-        if a[1] != b[1] or len(a[2]) != len(b[2]) or len(a[3]) != len(b[3]) or len(a[4]) != len(b[4]):
+        if plain(a[1]) != plain(b[1]) or len(a[2]) != len(b[2]) or len(a[3]) != len(b[3]) or len(a[4]) != len(b[4]):
             return False
         out = []
         for (k1, v1), (k2, v2) in zip(a[2], b[2]):
